@@ -39,3 +39,8 @@ Print Assumptions C02_no_legacy_top.
 Theorem C02_hypotheses_satisfiable : dmrs_wf ex_g /\ length (enc_dmrs true true ex_g) = 54%nat.
 Proof. exact (conj ex_g_wf ex_g_len). Qed.
 Print Assumptions C02_hypotheses_satisfiable.
+
+(* stability: encoding the decoded graph again reproduces the token stream *)
+Theorem C02_reencode_stable : forall p l g, enc_dmrs p l (proj_dmrs p l g) = enc_dmrs p l g.
+Proof. exact enc_dmrs_stable. Qed.
+Print Assumptions C02_reencode_stable.
